@@ -117,8 +117,12 @@ def run(ctx):
             except Exception as e:  # noqa
                 a = b = None
                 err = 'reading from a UTF-8 file raises %s' % type(e).__name__
-            a0 = [_debcon.d2l(x) for x in debcon.get_paragraphs_data(text)]
-            b0 = _d822.groups_t(deb822.get_paragraphs_as_field_groups(text))
+            try:
+                a0 = [_debcon.d2l(x) for x in debcon.get_paragraphs_data(text)]
+                b0 = _d822.groups_t(deb822.get_paragraphs_as_field_groups(text))
+            except Exception as e:  # noqa
+                a0 = b0 = None
+                err = err or 'parsing the text raises %s' % type(e).__name__
         finally:
             os.unlink(p)
         fst['cases'] += 1
@@ -127,6 +131,10 @@ def run(ctx):
             fst['prop_failures'] += 1
             fails.append(((text, ''), err or 'reading from a UTF-8 file differs from parsing the text'))
     from harness.props.C05 import p_abandoned
+    from harness.props.C08 import p_fresh
+    # each paragraph is returned with exactly its fields whatever a caller did to an earlier result
+    for x, why in ctx.prop('prop:fresh-results', [t for t in texts_for_corr if t.strip()][:ctx.n(3000, 30000)], p_fresh):
+        fails.append(((x, ''), why))
     multi = [t for t in texts_for_corr[:4000] if '\n\n' in t] or ['a: 1\n\nb: 2\n']
     for x, why in ctx.prop('prop:unfinished-results', [(rng.choice(multi), rng.choice(texts_for_corr[:4000])) for _ in range(ctx.n(1500, 15000))], p_abandoned):
         fails.append(((x[1], 'after an unfinished result for ' + repr(x[0])), why))
